@@ -47,6 +47,19 @@ def run(ctx):
         if bad:
             ctx.violation(key, "%s: %s\nexpected %s\n%s" % (json.dumps(r["id"]), json.dumps(bad), r["want"][:400], r["src"]),
                           dict(kind="sem", id=r["id"], src=r["src"], want=r["want"]))
+    # many modules: the module index around its operand-width boundaries
+    mres = ctx.path("many.ndjson")
+    ctx.vh("c12many", mres)
+    many = 0
+    for r in vlib.read_ndjson(mres):
+        if r.get("done"):
+            many = r["n"]
+            continue
+        ctx.violation("many:%d:%s:%s" % (r["n"], r["noopt"], r["rt"]), "script importing %d modules (noopt=%s, round trip=%s): %s" % (r["n"], r["noopt"], r["rt"], r["what"]), r)
+    if many == 0:
+        raise vlib.Inconclusive("no many-module script ran")
+    ctx.evaluations += many
+    ctx.cov["many_module_scripts"] = many
     if n == 0:
         raise vlib.Inconclusive("no programs")
     ctx.cov["programs"] = n
